@@ -46,7 +46,7 @@ def run(ctx: Ctx) -> None:
     if not hists:
         raise MachineryError("no histories emitted")
     rng.shuffle(hists)
-    extra_kinds = ["nnx_block", "eqx_linear", "treduce", "addforest", "function", "loop", "silu_opset24", "nchw", "reshape_cast"]
+    extra_kinds = ["fn_nested_multi", "nnx_block", "eqx_linear", "treduce", "addforest", "function", "loop", "silu_opset24", "nchw", "reshape_cast"]
     # corpus requests with rich graphs
     idx = run_tasks([{"fn": "harness.checks.c02:_corpus_index_job", "args": {}, "timeout": 600}], nworkers=1, timeout=600)[0][1]
     if idx.get("status") != "ok":
